@@ -122,6 +122,9 @@ def execute(case, choose, cancel_at=None):
             def _recreate_cm(self):
                 return Lease() if self.busy else self
 
+            def __len__(self):
+                return int(self.busy)  # resources currently held: an idle lease is "empty", i.e. tests false
+
             async def __aenter__(self):
                 if self.busy:
                     raise RuntimeError(f"lease {self.gid} entered while already in use")
@@ -143,6 +146,9 @@ def execute(case, choose, cancel_at=None):
         deco = Lease()
     else:
         class Manager(A.ContextDecorator):
+            def __bool__(self):
+                return False
+
             async def __aenter__(self):
                 ev.append((CTX.current, "enter", "shared"))
                 if susp["enter"]:
